@@ -989,7 +989,7 @@ DEFAULT_RULE = ("cases are generated from one SplitMix64 state per (stream, seed
                 "(buffer ≥ 2 bytes and the outcome is not EndOfBuffer at the first byte)")
 
 HOOK_COMMITS = ["7a8c9dd"]
-FIX_COMMITS = ["67bcb4a", "e9d4c57", "08bccf3", "cbd1cfa", "e306b44"]
+FIX_COMMITS = ["67bcb4a", "e9d4c57", "08bccf3", "cbd1cfa", "e306b44", "49be206"]
 
 NOT_APPLICABLE = {}
 
@@ -1259,8 +1259,8 @@ PROPS = {
         level="other", module="Rsdns.Props.C19",
         technique="exhaustive compiler check (cargo check of Send/Sync assertions over all four clients, all query methods, all 17 record types) tied to a Lean auto-trait model over struct shapes extracted from the source",
         level_text="The decision is rustc's: harness/typecheck type-checks iff Client is Send+Sync for the four clients and the futures of "
-                   "Client::new, query_raw and query_rrset::<D> (17 D, non-'static borrows, plus a Send+'static spawnable block) are Send. "
-                   "The Lean side applies the structural Send/Sync rules to the field lists of ClientImpl / ClientCtx / Client that the "
+                   "Client::new, query_raw and query_rrset::<D> (17 concrete D and generically in D: RData, non-'static borrows, plus Send+'static spawnable blocks; checked with default features and with rsdns' optional socket2 feature, which adds a field to ClientConfig) are Send. "
+                   "The Lean side applies the structural Send/Sync rules to the field lists of ClientImpl / ClientCtx / Client / ClientConfig (feature-gated fields included, type aliases resolved) that the "
                    "translator extracts on every run; an unknown field type fails the theorem rather than defaulting.",
         level_note="`other`: auto traits of compiler-generated async state machines are outside any model we can tie to this code; the "
                    "Lean theorem is thin by design, the assurance is the compiler's and is exhaustive (a type-level fact, not sampled).",
